@@ -270,5 +270,28 @@ def bath_closed_form(inp):
     return {'violates': bool(bad), 'detail': bad[:6], 'number of deviations': len(bad)}
 
 
+def caller_dt_conflict(inp):
+    """a caller dt that differs from the time step STORED in the process tensor: announced as used; it must then govern axes and dynamics"""
+    import warnings
+    import oqupy
+    from scipy.linalg import expm
+    sx, sz = oqupy.operators.sigma('x'), oqupy.operators.sigma('z')
+    H = 0.7 * sx + 0.2 * sz
+    rho0 = oqupy.operators.spin_dm('y+')
+    pt, n = _exact_pt(stored_dt=0.1)
+    dt = 0.2
+    try:
+        with warnings.catch_warnings():
+            warnings.simplefilter('ignore')
+            times, corr = oqupy.compute_correlations(oqupy.System(H), pt, sz, sx, 1, 2, initial_state=rho0, start_time=0.0, dt=dt, progress_type='silent')
+    except Exception as e:       # noqa
+        return {'violates': True, 'detail': {'process_tensor.dt': 0.1, 'dt': dt, 'observed': type(e).__name__ + ': ' + str(e)[:80],
+                                             'required': 'the announced time step governs time axes and dynamics'}}
+    ua, ub = expm(-1j * H * dt * 1), expm(-1j * H * dt * 1)
+    want = np.trace(sx @ (ub @ (sz @ (ua @ rho0 @ ua.conj().T)) @ ub.conj().T))
+    ok = abs(times[0][0] - dt) < 1e-12 and abs(times[1][0] - 2 * dt) < 1e-12 and abs(corr[0, 0] - want) < 1e-8
+    return {'violates': not ok, 'detail': {'times': [float(times[0][0]), float(times[1][0])], 'value': str(corr[0, 0]), 'required': str(want)}}
+
+
 # thorough tier (bounded native sweeps): (function, inputs, obligation of the open finding it reproduces or None)
-THOROUGH = [('nt_alignment', {}, None), ('three_operators_same_step', {}, None), ('nt_start_time', {}, None), ('anti_axes', {}, None), ('bath_closed_form', {}, None), ('nt_ordering_many_operators', {}, None)]
+THOROUGH = [('nt_alignment', {}, None), ('three_operators_same_step', {}, None), ('nt_start_time', {}, None), ('anti_axes', {}, None), ('bath_closed_form', {}, None), ('nt_ordering_many_operators', {}, None), ('caller_dt_conflict', {}, 'nt/callee-accepts-the-time-step[caller-dt-differs-from-pt-dt]')]
